@@ -208,6 +208,12 @@ def solve(pc, goal, timeout_ms, quick_ms=3000):
         return done('unsat', backend=ver)
     if r == z3.sat:
         return done('sat', s.model(), ver)
+    # ---- string-heavy queries: cvc5's string solver decides what z3's seq solver leaves open
+    text = probe.sexpr()
+    if 'str.' in text or 'String' in text:
+        v5 = _cvc5(s.to_smt2(), min(15000, timeout_ms))
+        if v5 == 'unsat':
+            return done('unsat', backend='cvc5-cli(strings)')
     # ---- stage 2: manual instantiation
     cand = None
     try:
@@ -224,6 +230,16 @@ def solve(pc, goal, timeout_ms, quick_ms=3000):
     if cand is not None:
         return done('sat', cand, ver + '+inst', approx=True)
     return solve_full(full, min(timeout_ms, 30000) if timeout_ms <= 60000 else timeout_ms, t0)
+
+
+def _cvc5(smt2, tlimit_ms):
+    try:
+        p = subprocess.run(['/usr/bin/cvc5', '--lang=smt2', '--tlimit=%d' % tlimit_ms, '--strings-exp', '-'],
+                           input='(set-logic ALL)\n' + smt2, capture_output=True, text=True, timeout=tlimit_ms / 1000.0 + 5)
+        out = p.stdout.strip().splitlines()
+        return out[0] if out else 'unknown'
+    except Exception:       # noqa
+        return 'unknown'
 
 
 def solve_full(full, timeout_ms, t0=None):
